@@ -6,7 +6,8 @@
 (* of {inspect header, inspect body, re-encode} up to the depth bound, ending in a         *)
 (* re-encoding.  With MBT = TRUE every maximal history is printed for replay (B1/B2).      *)
 EXTENDS PassThrough, LLUDPMini, Json
-CONSTANTS Alpha, MaxTail, FlagSet, Offs, DepthDeferred, DepthEager, MBT
+CONSTANTS Alpha, MaxTail, FlagSet, Offs, DepthDeferred, DepthEager, MBT,
+          RunLens   \* zero-run lengths of the additional long datagrams (255 boundaries of zero-coding)
 
 RECURSIVE SeqsOfLen(_, _)
 SeqsOfLen(S, n) == IF n = 0 THEN {<<>>} ELSE {<<x>> \o r : x \in S, r \in SeqsOfLen(S, n - 1)}
@@ -16,7 +17,14 @@ Tails == UNION {SeqsOfLen(Alpha, n) : n \in 1..MaxTail}
 Trailers == {<<>>, <<0, 0, 0, 1, 1>>, <<255, 0, 1, 0, 0, 0, 0, 1, 2>>}
 Dgrams == {x \in {<<f, 0, 0, 0, 1, o>> \o t \o a : f \in FlagSet, o \in Offs, t \in Tails, a \in Trailers} :
              HasBit(x[1], ABit) \/ Len(x) <= 6 + MaxTail}
-Accepted == {x \in Dgrams : Select(x) # 0}
+\* beyond the short strings: canonically zero-coded TstLow datagrams whose body holds a zero run of each
+\* length in RunLens at the start / in the middle / at the end (p = 0 joins the run to the zeros before it)
+RunDgrams == IF 128 \notin FlagSet THEN {}
+             ELSE {Datagram(U[3], [flags |-> 128, pid |-> <<0, 1>>, extra |-> <<>>, acks |-> <<>>,
+                                   blocks |-> << <<<<[k |-> "int", neg |-> 0, mag |-> <<p>>]>>, <<[k |-> "int", neg |-> 0, mag |-> <<p>>]>>>>,
+                                                 << <<[k |-> "raw", b |-> l \o Zeros(n) \o r]>> >> >>]) :
+                      p \in {258}, l \in {<<>>, <<1>>}, r \in {<<>>, <<1>>}, n \in RunLens}
+Accepted == {x \in Dgrams : Select(x) # 0} \cup RunDgrams
 
 \* what kind of datagram this is (exported so that the harness can show that no clause of the property
 \* is checked vacuously: every class must be inhabited)
